@@ -428,5 +428,6 @@ ObserveLaw == (hist # <<>> /\ Last.kind = "obs") => LET E == objs[Last.r] IN
   /\ Last.c.op \in {"iter", "str"} => (Len(Last.res) = Len(E) /\ \A i \in DOMAIN E : Last.res[i] = Fin(E[i], 0))
   /\ (Last.c.op = "index" /\ Last.err = "") => Last.res[1] \in {Fin(E[i], 0) : i \in DOMAIN E}
 
-Emit == (n = MaxOps) => PrintT(ToJson([start |-> Start, steps |-> hist]))
+(* one line per complete behaviour; the leading H keeps the harness' generic parser from decoding (and keeping) every line: the driver streams them *)
+Emit == (n = MaxOps) => PrintT("H" \o ToJson([start |-> Start, steps |-> hist]))
 =============================================================================
